@@ -339,9 +339,17 @@ def run_item(item):
     ret_expr = ret[0] if ret is not None else None
     ret_node = ret[1] if ret is not None else None
     src = G.function_source("f", order, exprs, ret_expr, body="return RET" if ret is not None else "pass")
+    # every third function also has a never-passed, un-annotated keyword-only parameter with an UNHASHABLE default (a list):
+    # it must not change anything about the error (the blame / message machinery may not hash signatures or defaults)
+    with_unhashable_default = (sum(map(ord, src)) % 3 == 0) and n > 0
+    if with_unhashable_default:
+        head, rest = src.split("\n", 1)
+        close = head.rindex(")")
+        src = head[:close] + ", *, _scratch=UNHASHABLE_DEFAULT" + head[close:] + "\n" + rest
     fns = {}
     for checker in ("typeguard", "beartype"):
         g = G.base_globals()
+        g["UNHASHABLE_DEFAULT"] = [1, 2]
         exec(src, g)
         fns[checker] = (G.decorate(g["f"], "new", checker), g)
     evals = 0
